@@ -1,6 +1,7 @@
 package ranges
 
 import (
+	"bytes"
 	"fmt"
 	"strings"
 
@@ -225,6 +226,25 @@ func partitionFS(c *hx.Ctx) {
 			before := d.Clone()
 			d.ResetLog()
 			d.Allowed = []memdev.Range{{Lo: lo, Hi: hi}}
+			// the clause "writing partition contents changes only bytes of that partition": a stream that fills the
+			// partition (or stops short / runs over: refused, and still nothing outside) through the Disk entry point
+			{
+				n := int(hi - lo)
+				switch r.Intn(4) {
+				case 0:
+					n -= 1 + r.Intn(5000)
+				case 1:
+					n += 1 + r.Intn(5000)
+				}
+				_, werr := dk.WritePartitionContents(1, bytes.NewReader(r.Bytes(n)))
+				note := ""
+				if werr != nil {
+					note = "WritePartitionContents refused: " + werr.Error()
+				}
+				checkRange(c, id+"/contents", fsCase{kind: "partition-contents-" + kind, size: hi - lo, start: lo, bs: 512, script: "stream"}, d, before, note)
+				c.Stat("partition-contents")
+				d.ResetLog()
+			}
 			fsys, err := dk.CreateFilesystem(disk.FilesystemSpec{Partition: 1, FSType: fst, VolumeLabel: "VERIF", Reproducible: true})
 			k := fsCase{kind: fmt.Sprintf("fstype%d", fst), size: hi - lo, start: lo, bs: 512, script: "fill"}
 			if fst != filesystem.TypeExt4 {
